@@ -3,7 +3,6 @@
 // C33: graceful switch between LB policies.
 //verif:pkg internal/balancer/gracefulswitch
 //verif:bound loop=40 steps=6000000 preempt=1 paths=1500000
-//verif:thorough preempt=2 paths=6000000
 //verif:noreplay schedule-dependent (the swap goroutine closing the old policy runs as a real thread); witnesses are re-executed deterministically in the engine
 //verif:outside histories longer than 5 (quick) / 6 (thorough) events over at most 3 child policies; events issued from one goroutine at a time (as the channel's serializer does), with the asynchronous close of the replaced policy interleaved freely
 package gracefulswitch
